@@ -16,7 +16,7 @@ import itertools
 
 import numpy as np
 
-from mc import drive, util, world
+from mc import drive, scriptrng, util, world
 
 ID = "C11"
 LEVEL = "model_checking"
@@ -61,24 +61,7 @@ def cases(tier, seed):
     return out
 
 
-class Tagged:
-    """Scripted generator: call k returns scale * sign * (1 + 1e-3*(k+1) + 1e-4*(i+1)) for particle i - all values distinct."""
-
-    def __init__(self, scale):
-        self.scale, self.calls, self.log, self.errors = scale, 0, [], []
-
-    def normal(self, *a, size=None, **kw):
-        if a or kw or size is None:
-            self.errors.append(f"normal called with args={a} kwargs={kw} size={size}")
-            size = size if size is not None else 1
-        k = self.calls
-        v = np.array([self.scale * (-1) ** (k + i) * (1 + 1e-3 * (k + 1) + 1e-5 * (i + 1)) for i in range(size)])  # globally distinct scalars
-        self.log.append(v)
-        self.calls += 1
-        return v
-
-    def __getattr__(self, name):
-        raise util.HarnessError(f"tracker used rng.{name}: only normal(size=n) is scripted")
+Tagged = scriptrng.Tagged  # all scalars distinct, any spelling of normal()/standard_normal(), copies handed out
 
 
 def run_one(D, Dz, dt, dxy, nsteps, npart, adv, inactive=False, wadv=0.0, big=False):
@@ -113,8 +96,8 @@ def run_one(D, Dz, dt, dxy, nsteps, npart, adv, inactive=False, wadv=0.0, big=Fa
         pass
     tr = Tracker(advection=adv, diffusion=D, vertdiff=Dz, vertical_advection=bool(wadv), modules=mods)
     mods["tracker"] = tr
-    if not isinstance(tr.rng, np.random.Generator):
-        return ("generator-type", f"Tracker.rng is {type(tr.rng)}, not numpy.random.Generator")
+    if not hasattr(tr, "rng"):
+        raise util.HarnessError("Tracker has no attribute rng: the random source cannot be scripted")
     sig_h = (2 * D * dt) ** 0.5
     sig_z = (2 * Dz * dt) ** 0.5
     scale = min(1.0, 0.02 / max(sig_h / min(dx, dy), 1e-30), 10.0 / max(sig_z, 1e-30))  # <= 0.02 cells and <= 10 m per step
@@ -135,12 +118,10 @@ def run_one(D, Dz, dt, dxy, nsteps, npart, adv, inactive=False, wadv=0.0, big=Fa
         c0 = rng.calls
         try:
             tr.update()
-        except util.HarnessError as e:
-            return ("other-distribution", str(e))
+        except util.HarnessError:
+            raise  # a random primitive that cannot be scripted: undecidable here, not a violation
         except Exception as e:
             return ("exception", repr(e))
-        if rng.errors:
-            return ("normal-arguments", rng.errors[0])
         draws = rng.log[c0:]
         pool = np.concatenate(draws) if draws else np.array([])  # every scalar drawn in this step (fresh by construction)
         if not st.alive.all():
